@@ -69,6 +69,8 @@ def render_value(v, pname, res, netcdf=False):
     if k == "ref":
         return v[1]
     if k == "int":
+        if v[1] == "bit":
+            return "0"
         return INTS.get(pname, "3")
     if k == "float":
         return "2.5"
@@ -86,6 +88,8 @@ def render_value(v, pname, res, netcdf=False):
             return "in.nc" if netcdf else "in.csv"
         if f == "rel_missing":
             return "out_%s_%s.%s" % (res, pname, "nc" if netcdf else "csv")
+        if f == "empty":
+            return '""'
         if f == "intstr":
             return '"3"'
         return '"%s"' % f
@@ -115,6 +119,12 @@ def render(prog, variant=0, netcdf=False):
         lines.append("%s(" % head)
         table[len(lines)] = (ci + 1, "")
         for ai, (pn, v) in enumerate(args):
+            if variant == 6:  # the value on the line after the name: the argument still starts at its name
+                lines.append("    %s =" % pn)
+                table[len(lines)] = (ci + 1, pn)
+                lines.append("        %s%s" % (render_value(v, pn, res, netcdf), "," if ai < len(args) - 1 else ""))
+                table[len(lines)] = (ci + 1, pn)   # ... and reaches to the line its value starts on (either line locates it)
+                continue
             lines.append("    %s = %s%s" % (pn, render_value(v, pn, res, netcdf), "," if ai < len(args) - 1 else ""))
             table[len(lines)] = (ci + 1, pn)
         lines.append(")")
@@ -285,6 +295,8 @@ def run_check(chk, prop, tier, clause_prefixes, libsets, allkinds=False, keep=No
         chk.add_tlc("MPValidate pipeline (%s libraries, %d declared commands)" % (libname, len(dl)), r,
                     "PrepassAll=TRUE CleanersTotal=TRUE; Decl generated from live classes")
         variants = [core.SEED % 6] if tier == "quick" else [(core.SEED + k) % 6 for k in range(3)]
+        if prop == "C11":
+            variants = variants + [6]
         jobs, res = run_programs(progs, variants, libs, netcdf)
         chk.cov["evaluations"] += len(res)
         records = [rec for rec, src in res]
@@ -322,7 +334,8 @@ def check_C12(tier):
     chk = core.Check("C12", tier)
     core.sut()
     libsets = [("csv", decl.CSV_LIBS)] + ([("netcdf", decl.NETCDF_LIBS)] if tier == "thorough" else [])
-    run_check(chk, "C12", tier, {"C12"}, libsets)
+    # an exception that is no MPilot error at all is, for an ill-formed model, also not "the specific error" C12 asks for
+    run_check(chk, "C12", tier, {"C12", "C13"}, libsets)
     chk.cov["rule"] = ("declarations are exported from the live command classes into MC_Decl.tla; TLC builds, for every declared command (required-only and all-parameter forms) a valid model around it "
                        "(readers, fuzzy producers, a Boolean-valued producer, a writer) and injects every single fault (unknown command, duplicate result, each missing required parameter, undeclared "
                        "parameter, every wrong value kind per parameter incl. list items, dangling reference, wrong output kind, wrong fuzziness) with the target first or last, explores the "
@@ -362,6 +375,9 @@ RUNTIME_SCENARIOS = [
     ("write-to-missing-dir", "A = EEMSRead(InFileName = in.csv, InFieldName = a)\nW = EEMSWrite(OutFileName = nodir/out.csv, OutFieldNames = [A])\n", {}),
     ("write-2d-unsupported", "A = EEMSRead(InFileName = in.csv, InFieldName = a)\nW = EEMSWrite(OutFileName = out.csv, OutFieldNames = [])\n", {}),
     ("dtype-integer-fraction", "A = EEMSRead(InFileName = frac.csv, InFieldName = a, DataType = Integer, MissingVal = 2.5)\n", {"frac.csv": "a\n1.5\n2.5\n"}),
+    ("unicode-metadata", u"A = EEMSRead(InFileName = in.csv, InFieldName = a, Metadata = [Title: \"Fl\u00e4che \u2013 \u20ac 5 \u4e2d\u6587 \u03b1\", Note: '\u201cquoted\u201d'])\n", {}),
+    ("unicode-unknown-field", u"A = EEMSRead(InFileName = in.csv, InFieldName = \"\u0394h \u2013 m\")\n", {}),
+    ("unicode-comment", u"# \u00dcbersicht \u2014 \u4e2d\nA = EEMSRead(InFileName = in.csv, InFieldName = a)\n", {}),
     ("syntax-list-mixes-pair", "A = EEMSRead(InFileName = in.csv, InFieldName = a, Metadata = [1, a:b])\n", {}),
     ("syntax-unbalanced", "A = EEMSRead(InFileName = in.csv, InFieldName = a\n", {}),
     ("syntax-bad-char", "A = EEMSRead(InFileName = in.csv, InFieldName = \"a)\n", {}),
